@@ -121,7 +121,7 @@ SHARDS_RUN = {"cmd": "shards", "mode": "shards", "cases": {"quick": 60, "thoroug
 # the commit / rollback pipelines of lib.rs + store/mod.rs + store/sync.rs: the real calls with every I/O event failing (hook H1) against the
 # Lean step-sequence mirror (Api/Pipeline.lean, driver mode `pipeline`)
 PIPE_RUN = {"cmd": "pipeline", "mode": "pipeline", "cases": {"quick": 20, "thorough": 480}, "shards": {"quick": 4, "thorough": 16}}
-# the lock / micro-step recorder (hook H18): real multi-threaded schedules of the real store, recorded marker by marker, replayed in the two-lock LTS
+# the lock / micro-step recorder (hook LR): real multi-threaded schedules of the real store, recorded marker by marker, replayed in the two-lock LTS
 # (Api/Locks2*.lean, Api/Locks2Replay.lean; driver mode `locks`): every recorded micro-step is the thread's next one and ENABLED in the model, every result is the model's
 LOCKREC_RUN = {"cmd": "lockrec", "mode": "locks", "cases": {"quick": 320, "thorough": 9600}, "shards": {"quick": 4, "thorough": 16}}
 LOCKREC_RULE = (" lockrec: per case ONE recorded schedule — a fresh store, 2…6 threads running 2…4 generated tasks each (session + blocking / non-blocking commit with retries, session + reads + drop, "
